@@ -35,6 +35,12 @@ Qed.
 Lemma filter_length_le {X} (p : X -> bool) (l : list X) : (length (filter p l) <= length l)%nat.
 Proof. induction l; simpl; auto. destruct (p a); simpl; lia. Qed.
 
+Lemma NoDup_app_l {X} (l r : list X) : NoDup (l ++ r) -> NoDup l.
+Proof.
+  induction l as [|a l IH]; simpl; intros H; [constructor|].
+  inversion H; subst. constructor; auto. intros Hin. apply H2. apply in_or_app; auto.
+Qed.
+
 Section WrsProofs.
   Variable K : Type.
   Variable klt : K -> K -> bool.
@@ -230,7 +236,7 @@ Section WrsProofs.
       destruct Hy as [Hy Hyp].
       assert (Hall : filter kof items = items).
       { apply filter_all_true. intros x Hx. destruct (kpos (fst x)) eqn:Ex; auto.
-        rewrite (kzero_below _ _ Ex Hyp) in (Htop x y Hx Hy). discriminate Htop. }
+        pose proof (Htop x y Hx Hy) as Hc. rewrite (kzero_below _ _ Ex Hyp) in Hc. discriminate Hc. }
       rewrite Hall. simpl.
       assert (length rest <> 0)%nat by (destruct rest; [destruct Hy|simpl; lia]).
       lia.
@@ -242,20 +248,20 @@ Section WrsProofs.
     eapply Permutation_in. apply Permutation_sym; eauto. apply in_or_app; auto.
   Qed.
 
-  Lemma topk_nodup : forall max p items (f : item -> nat), topk max p items ->
+  Lemma topk_nodup : forall {X} max p items (f : item -> X), topk max p items ->
     NoDup (map f p) -> NoDup (map f items).
   Proof.
-    intros max p items f (rest & Hperm & _) Hnd.
+    intros X max p items f (rest & Hperm & _) Hnd.
     apply (Permutation_map f) in Hperm. rewrite map_app in Hperm.
-    eapply Permutation_NoDup in Hnd; eauto. eapply NoDup_app_remove_r; eauto.
+    apply (Permutation_NoDup Hperm) in Hnd. eapply NoDup_app_l; eauto.
   Qed.
 
   Lemma live_in : forall (l : list item) x, In x (live kpos l) <-> In x l /\ kpos (fst x) = true.
   Proof. intros. unfold live. apply filter_In. Qed.
 
-  Lemma live_nodup : forall (l : list item) (f : item -> nat), NoDup (map f l) -> NoDup (map f (live kpos l)).
+  Lemma live_nodup : forall {X} (l : list item) (f : item -> X), NoDup (map f l) -> NoDup (map f (live kpos l)).
   Proof.
-    induction l as [|a l IH]; simpl; intros f H; auto.
+    intros X. induction l as [|a l IH]; simpl; intros f H; auto.
     inversion H; subst. destruct (kpos (fst a)); simpl; auto.
     constructor; auto. intros Hin. apply H2.
     apply in_map_iff in Hin. destruct Hin as (x & Hx & Hin). apply live_in in Hin.
@@ -263,3 +269,192 @@ Section WrsProofs.
   Qed.
 End WrsProofs.
 
+
+(* ------------------------------------------------------------------ *)
+(* the two address families of one Wrs *)
+
+Section Families.
+  Variable K : Type.
+  Variable klt : K -> K -> bool.
+  Variable kpos : K -> bool.
+  Variable A : Type.
+  Hypothesis klt_irrefl : forall a, klt a a = false.
+  Hypothesis klt_trans : forall a b c, klt a b = true -> klt b c = true -> klt a c = true.
+  Hypothesis kzero_below : forall z a, kpos z = false -> kpos a = true -> klt z a = true.
+
+  Notation item := (item K A).
+  Notation row := (row K A).
+  Notation wrs := (wrs K A).
+
+  Definition itm (r : row) : item := (rkey r, rpay r).
+
+  Lemma fam_items_cons : forall q (r : row) rows,
+    fam_items q (r :: rows) = if rq r =? q then itm r :: fam_items q rows else fam_items q rows.
+  Proof. intros. unfold fam_items. simpl. destruct (rq r =? q); auto. Qed.
+
+  Lemma add_row_spec : forall (w : wrs) (r : row),
+    let w' := add_row klt w r in
+    max_answers w' = max_answers w
+    /\ v4 w' = (if rq r =? TypeA then add_items klt (max_answers w) (v4 w) (itm r) else v4 w)
+    /\ v6 w' = (if rq r =? TypeAAAA then add_items klt (max_answers w) (v6 w) (itm r) else v6 w)
+    /\ v4count w' = (if rq r =? TypeA then inc32 (v4count w) else v4count w)
+    /\ v6count w' = (if rq r =? TypeAAAA then inc32 (v6count w) else v6count w).
+  Proof.
+    intros w r. unfold add_row, add, itm.
+    destruct (rq r =? TypeA) eqn:E4; destruct (rq r =? TypeAAAA) eqn:E6; simpl; auto.
+  Qed.
+
+  Definition fed_from (w : wrs) (rows : list row) : wrs := fold_left (add_row klt) rows w.
+
+  Lemma fed_from_spec : forall rows (w : wrs),
+    v4count w < two32 -> v6count w < two32 ->
+    let w' := fed_from w rows in
+    max_answers w' = max_answers w
+    /\ v4 w' = fold_left (add_items klt (max_answers w)) (fam_items TypeA rows) (v4 w)
+    /\ v6 w' = fold_left (add_items klt (max_answers w)) (fam_items TypeAAAA rows) (v6 w)
+    /\ v4count w' = (v4count w + N.of_nat (length (fam_items TypeA rows))) mod two32
+    /\ v6count w' = (v6count w + N.of_nat (length (fam_items TypeAAAA rows))) mod two32.
+  Proof.
+    induction rows as [|r rows IH]; intros w H4 H6; cbn zeta.
+    - cbn [fed_from fold_left fam_items filter map length N.of_nat]. rewrite !N.add_0_r, !N.mod_small; auto.
+    - unfold fed_from. cbn [fold_left]. fold (fed_from (add_row klt w r) rows).
+      destruct (add_row_spec w r) as (Hm & Hv4 & Hv6 & Hc4 & Hc6).
+      assert (Hlt : forall c, inc32 c < two32) by (intros; unfold inc32; apply N.mod_lt; discriminate).
+      assert (H4' : v4count (add_row klt w r) < two32) by (rewrite Hc4; destruct (rq r =? TypeA); auto).
+      assert (H6' : v6count (add_row klt w r) < two32) by (rewrite Hc6; destruct (rq r =? TypeAAAA); auto).
+      destruct (IH _ H4' H6') as (Im & I4 & I6 & J4 & J6).
+      rewrite Im, I4, I6, J4, J6, Hm, Hv4, Hv6, Hc4, Hc6, !fam_items_cons.
+      repeat split; auto.
+      + destruct (rq r =? TypeA); auto.
+      + destruct (rq r =? TypeAAAA); auto.
+      + destruct (rq r =? TypeA); auto. cbn [length]. rewrite Nat2N.inj_succ. unfold inc32.
+        rewrite N.add_mod_idemp_l by discriminate. f_equal. lia.
+      + destruct (rq r =? TypeAAAA); auto. cbn [length]. rewrite Nat2N.inj_succ. unfold inc32.
+        rewrite N.add_mod_idemp_l by discriminate. f_equal. lia.
+  Qed.
+
+  Lemma feed_spec : forall max (rows : list row),
+    let w := feed klt max rows in
+    max_answers w = max
+    /\ v4 w = run klt max (fam_items TypeA rows)
+    /\ v6 w = run klt max (fam_items TypeAAAA rows)
+    /\ v4count w = N.of_nat (length (fam_items TypeA rows)) mod two32
+    /\ v6count w = N.of_nat (length (fam_items TypeAAAA rows)) mod two32.
+  Proof.
+    intros max rows. unfold feed, run.
+    assert (H0 : (0 : N) < two32) by reflexivity.
+    apply (fed_from_spec rows (wrs_new max) H0 H0).
+  Qed.
+
+  Definition slots (w : wrs) (q : N) : list item := if q =? TypeA then v4 w else v6 w.
+
+  Lemma feed_slots : forall max (rows : list row) q, q = TypeA \/ q = TypeAAAA ->
+    slots (feed klt max rows) q = run klt max (fam_items q rows)
+    /\ records kpos (feed klt max rows) q = Ok (live kpos (run klt max (fam_items q rows))).
+  Proof.
+    intros max rows q Hq. destruct (feed_spec max rows) as (_ & H4 & H6 & _).
+    unfold slots, records. destruct Hq; subst q; simpl; rewrite ?H4, ?H6; auto.
+  Qed.
+
+  Lemma fam_items_in : forall q (rows : list row) (it : item), In it (fam_items q rows) ->
+    exists r, In r rows /\ rq r = q /\ rkey r = fst it /\ rpay r = snd it.
+  Proof.
+    intros q rows it H. unfold fam_items in H. apply in_map_iff in H.
+    destruct H as (r & <- & Hr). apply filter_In in Hr. destruct Hr as [Hr Hq].
+    apply N.eqb_eq in Hq. exists r; simpl; auto.
+  Qed.
+
+  Lemma fam_items_pay_nodup : forall q (rows : list row), NoDup (map rpay rows) -> NoDup (map snd (fam_items q rows)).
+  Proof.
+    intros q rows. induction rows as [|r rows IH]; intros H; [constructor|].
+    inversion H; subst. rewrite fam_items_cons. destruct (rq r =? q); auto.
+    simpl. constructor; auto. intros Hin. apply H2.
+    apply in_map_iff in Hin. destruct Hin as (it & Hs & Hin).
+    apply fam_items_in in Hin. destruct Hin as (r' & Hr' & _ & _ & Hp).
+    apply in_map_iff. exists r'. split; congruence.
+  Qed.
+
+  Lemma fam_items_npos : forall q (rows : list row),
+    length (filter (fun it : item => kpos (fst it)) (fam_items q rows))
+    = length (filter (fun r : row => (rq r =? q) && kpos (rkey r)) rows).
+  Proof.
+    intros q rows. induction rows as [|r rows IH]; auto.
+    rewrite fam_items_cons. simpl. destruct (rq r =? q); simpl; auto.
+    destruct (kpos (rkey r)); simpl; auto.
+  Qed.
+
+  (* ---------------------------------------------------------------- *)
+  (* C11: bounded and sound *)
+
+  Theorem bounded_sound : forall (rows : list row) max q,
+    (1 <= max)%Z -> q = TypeA \/ q = TypeAAAA -> NoDup (map rpay rows) ->
+    exists res, records kpos (feed klt max rows) q = Ok res
+      /\ (forall it, In it res -> exists r, In r rows /\ rq r = q /\ rkey r = fst it /\ rpay r = snd it)
+      /\ NoDup (map snd res)
+      /\ (forall it, In it res -> kpos (fst it) = true)
+      /\ length res = Nat.min (Z.to_nat max)
+                        (length (filter (fun r : row => (rq r =? q) && kpos (rkey r)) rows)).
+  Proof.
+    intros rows max q Hmax Hq Hnd.
+    destruct (feed_slots max rows q Hq) as [_ Hrec].
+    pose proof (run_topk K klt A klt_irrefl klt_trans max (fam_items q rows) Hmax) as Htop.
+    exists (live kpos (run klt max (fam_items q rows))). split; auto. repeat split.
+    - intros it Hit. apply live_in in Hit. destruct Hit as [Hit _].
+      apply (topk_incl _ _ _ _ _ _ Htop) in Hit. apply fam_items_in; auto.
+    - apply live_nodup. eapply topk_nodup; eauto. apply fam_items_pay_nodup; auto.
+    - intros it Hit. apply live_in in Hit. tauto.
+    - rewrite <- fam_items_npos.
+      apply (topk_count K klt kpos A kzero_below _ _ _ Htop).
+  Qed.
+
+  (* the kept items are the top ones: no candidate of the family that is not
+     returned has a key above a returned one *)
+  Theorem topk_selected : forall (rows : list row) max q res,
+    (1 <= max)%Z -> q = TypeA \/ q = TypeAAAA -> NoDup (map rpay rows) ->
+    records kpos (feed klt max rows) q = Ok res ->
+    forall r it, In r rows -> rq r = q -> ~ In (rpay r) (map snd res) -> In it res ->
+      klt (fst it) (rkey r) = false.
+  Proof.
+    intros rows max q res Hmax Hq Hnd Hrec r it Hr Hrq Hnot Hit.
+    destruct (feed_slots max rows q Hq) as [_ Hrec']. rewrite Hrec' in Hrec. inversion Hrec; subst res. clear Hrec Hrec'.
+    pose proof (run_topk K klt A klt_irrefl klt_trans max (fam_items q rows) Hmax) as (rest & Hperm & Htop & _).
+    apply live_in in Hit. destruct Hit as [Hit Hpos].
+    destruct (kpos (rkey r)) eqn:Ep.
+    - assert (Hin : In (itm r) (fam_items q rows)).
+      { unfold fam_items. apply in_map_iff. exists r. split; auto. apply filter_In. split; auto. apply N.eqb_eq; auto. }
+      apply (Permutation_in _ Hperm) in Hin. apply in_app_or in Hin. destruct Hin as [Hin | Hin].
+      + exfalso. apply Hnot. apply in_map_iff. exists (itm r). split; auto. apply live_in. split; auto.
+      + apply (Htop it (itm r) Hit Hin).
+    - apply (klt_asym K klt klt_irrefl klt_trans). apply kzero_below; auto.
+  Qed.
+
+  (* ---------------------------------------------------------------- *)
+  (* FindAnswer for an address query *)
+
+  Definition cnames (rows : list row) : list A := map rpay (filter (fun r => rq r =? TypeCNAME) rows).
+
+  Lemma parse_fold_addr : forall q (lv : list row) (s : fstate K A),
+    q = TypeA \/ q = TypeAAAA ->
+    let s' := fold_left (parse_result klt q) lv s in
+    fw s' = fed_from (fw s) (filter (fun r => rq r =? q) lv)
+    /\ fans s' = fans s ++ cnames lv
+    /\ ffound s' = (ffound s || negb (length lv =? 0)%nat).
+  Proof.
+    intros q lv. induction lv as [|r lv IH]; intros s Hq; cbn zeta.
+    - simpl. rewrite app_nil_r, orb_false_r. auto.
+    - cbn [fold_left]. destruct (IH (parse_result klt q s r) Hq) as (Hw & Ha & Hf).
+      rewrite Hw, Ha, Hf. unfold parse_result, cnames. cbn [filter].
+      assert (HqA : (q =? TypeANY) = false) by (destruct Hq; subst; auto).
+      assert (HqC : (q =? TypeCNAME) = false) by (destruct Hq; subst; auto).
+      rewrite HqA, orb_false_r.
+      destruct (rq r =? TypeCNAME) eqn:EC.
+      + apply N.eqb_eq in EC. rewrite EC. rewrite (N.eqb_sym TypeCNAME q), HqC.
+        cbn [orb is_addr N.eqb TypeCNAME TypeA TypeAAAA Pos.eqb fw fans ffound map].
+        unfold is_addr. cbn. rewrite <- app_assoc. repeat split; auto. rewrite orb_true_r. auto.
+      + cbn [orb]. destruct (rq r =? q) eqn:EQ.
+        * apply N.eqb_eq in EQ.
+          assert (Hia : is_addr (rq r) = true) by (rewrite EQ; destruct Hq; subst; auto).
+          rewrite Hia. cbn [fw fans ffound fed_from fold_left]. repeat split; auto. rewrite orb_true_r; auto.
+        * cbn [fw fans ffound]. repeat split; auto. rewrite orb_true_r; auto.
+  Qed.
+End Families.
